@@ -130,3 +130,11 @@ package k8s
 //@         && (forall q v1.Protocol :: {q in pc.AllowedConns.AllowedProtocols} !(q in pc.AllowedConns.AllowedProtocols))
 //@         && (forall q v1.Protocol :: {q in pc.DeniedConns.AllowedProtocols} !(q in pc.DeniedConns.AllowedProtocols))
 //@         && (forall q v1.Protocol :: {q in pc.PassConns.AllowedProtocols} !(q in pc.PassConns.AllowedProtocols)))
+
+// ---------------------------------------------------------------------------------------------
+// AdminNetworkPolicy priority
+// ---------------------------------------------------------------------------------------------
+
+//@ func (*AdminNetworkPolicy).HasValidPriority
+//@   requires anp != nil
+//@   ensures [C19,C02] def: res == (0 <= anp.Spec.Priority && anp.Spec.Priority <= 1000)
